@@ -137,7 +137,9 @@ class C20(HistoryCheck):
             "copyreg.dispatch_table is compared with its pre-run snapshot; probed operations are re-executed with an "
             "InjectedFault at every callback invocation index and a line abort at library line events (quick <=24 "
             "stratified, thorough all). mode threads: 2-3 simulated threads each perform 1-3 copies of module-bearing "
-            "values under one seeded schedule (bounded pre-emptions restricted to the copy-protection code, PCT, random); "
+            "values (or one that user code aborts; half of the runs start before the copy-protection singleton exists) under one "
+            "seeded schedule (bounded pre-emptions restricted to the copy-protection code, PCT, random, lock-operation-only, "
+            "per-thread site targets); "
             "oracle: all copies succeed, modules preserved by identity, table restored at the end. evaluations = executions "
             "(seq) + schedules (threads). distinct_nontrivial = distinct (mode, op kind, fault kind, fault site / callback) "
             "for seq and (action tuple, pre-emption sites) for threads, among executions that actually entered the "
